@@ -562,6 +562,10 @@ def classify(res, g):
         if not spans:
             cerrs.append(msg)
             continue
+        if "Resource limit (rlimit) exceeded" in msg or "rlimit" in msg.lower() and "exceeded" in msg.lower():
+            # the solver gave up: no verdict on this function (never an alarm)
+            cerrs.append("RLIMIT: " + msg + " :: " + " ".join(g.text[s_["byte_start"]:s_["byte_end"]][:80] for s_ in spans[:1]))
+            continue
         is_verif = d.get("code") is None and any(k in msg for k in VERIF_MSGS)
         if not is_verif:
             cerrs.append(d.get("rendered") or msg)
